@@ -41,8 +41,10 @@ Fixpoint unit_circle_loop (fuel : nat) (t : fty) : sampler (list expr) :=
   | S f =>
     x1 <- draw_pm1 t ;; x2 <- draw_pm1 t ;;
     let sum := x1 *. x1 +. x2 *. x2 in
+    (* `sum < 1 && sum > 0` (short-circuit): the origin is rejected like a point outside the disc *)
     b <- sask CLt sum one ;;
-    if b then sret (circle_out x1 x2) else unit_circle_loop f t
+    p <- (if b then sask CGt sum (num 0) else sret false) ;;
+    if p then sret (circle_out x1 x2) else unit_circle_loop f t
   end.
 Definition unit_circle (t : fty) : sampler (list expr) := unit_circle_loop 64 t.
 
